@@ -218,4 +218,7 @@ def postprocess(ev):
             r["today"] = parse_today(plain)
         elif kind == "pwt":
             r["pwt"] = parse_pwt(plain)
+        elif kind == "warn":
+            r["warn"] = [{"date": m.group(1), "msg": m.group(2)} for m in
+                         (re.match(r"^\[WARNING\] (\S+): (.*)$", l) for l in plain.split("\n")) if m]
     return ev
